@@ -426,6 +426,31 @@ func AddExactTerms(r *rand.Rand, docs []*model.MDoc, field string, spec map[stri
 	}
 }
 
+// AddTermDocs adds one instance of field carrying the given terms (frequency 1,
+// no locations) to chosen documents: which[term] lists document indices.
+func AddTermDocs(docs []*model.MDoc, field string, which map[string][]int) {
+	per := map[int][]string{}
+	names := make([]string, 0, len(which))
+	for t := range which {
+		names = append(names, t)
+	}
+	sort.Strings(names)
+	for _, t := range names {
+		for _, d := range which[t] {
+			per[d] = append(per[d], t)
+		}
+	}
+	for d := range docs {
+		if ts := per[d]; len(ts) > 0 {
+			f := &model.MField{N: field}
+			for _, t := range ts {
+				f.Terms = append(f.Terms, &model.MTerm{T: []byte(t), F: 1})
+			}
+			docs[d].Fields = append(docs[d].Fields, f)
+		}
+	}
+}
+
 // ExactSpec returns the boundary cardinalities that fit into n documents.
 func ExactSpec(n int) map[string]int {
 	spec := map[string]int{}
